@@ -123,6 +123,8 @@ pub struct PointInfo<'a> {
     pub point: Option<&'a Point>,
     /// true when this is the observation right after the caller's op returned
     pub after_op: bool,
+    /// whether that op returned Ok
+    pub op_ok: bool,
 }
 
 pub trait Observer {
@@ -186,6 +188,7 @@ pub struct Runner<'a> {
     pub step_ix: usize,
     pub closed_seen: std::collections::BTreeSet<u64>,
     pub inst: u32,
+    pub last_op_ok: bool,
 }
 
 /// Custom ending of a scheduled run (replaces "drain the worker, close the store").
@@ -244,7 +247,7 @@ impl<'a> Runner<'a> {
         if self.st.rl.is_none() {
             return Ok(());
         }
-        let info = PointInfo { step: self.step_ix, worker, point, after_op };
+        let info = PointInfo { step: self.step_ix, worker, point, after_op, op_ok: self.last_op_ok };
         obs.at_point(&self.st, &self.m, &info).map_err(RunErr::Viol)
     }
 
@@ -345,7 +348,7 @@ fn run_inner(case: &SchedCase, obs: &mut dyn Observer, dir: &str, tail: Option<T
         Ok(s) => s,
         Err(o) => return Err(RunErr::Viol(sviol("C05", "open_empty_dir", format!("open of an empty directory: {}", o.brief()), case, 0))),
     };
-    let mut r = Runner { case, st, m: Model::new(), models: vec![Model::new()], recs: vec![], steps: vec![], flushes: vec![], worker_tid: None, worker_dead: false, stall_points: 0, step_ix: 0, closed_seen: Default::default(), inst: 1 };
+    let mut r = Runner { case, st, m: Model::new(), models: vec![Model::new()], recs: vec![], steps: vec![], flushes: vec![], worker_tid: None, worker_dead: false, stall_points: 0, step_ix: 0, closed_seen: Default::default(), inst: 1, last_op_ok: true };
     let mut stop_reason = String::new();
     let mut completed = 0usize;
     for (i, step) in h.steps.iter().enumerate() {
@@ -375,12 +378,22 @@ fn run_inner(case: &SchedCase, obs: &mut dyn Observer, dir: &str, tail: Option<T
                             if let Op::Append(es) = op {
                                 applied = es.iter().position(|(id, _)| Some(*id) == last_now).map(|p| p + 1).unwrap_or(0);
                             }
+                            let total = recs.len();
                             for rec in recs.into_iter().take(applied) {
                                 r.m.apply(&rec);
                                 r.recs.push(rec);
                                 r.models.push(r.m.clone());
                             }
                             trace::note(Ek::OpEnd { op: i as u32, ok: false });
+                            r.last_op_ok = false;
+                            if applied < total || !e.contains("os error 5") {
+                                // the batch was cut short (or this is a later refusal): the rest of the pre-generated
+                                // history no longer fits the state; end it here
+                                stop_reason = "history ended after an injected chunk-creation failure cut a batch short".into();
+                                r.steps.push(StepRec { ev_begin, ev_end: trace::ev_count(), writes_before: wb, writes_after: r.recs.len(), outcome });
+                                completed = i + 1;
+                                break;
+                            }
                             let n = case.sched.get(i).copied().unwrap_or(0);
                             r.release(n, obs, true)?;
                             r.steps.push(StepRec { ev_begin, ev_end: trace::ev_count(), writes_before: wb, writes_after: r.recs.len(), outcome });
@@ -469,6 +482,7 @@ fn run_inner(case: &SchedCase, obs: &mut dyn Observer, dir: &str, tail: Option<T
             _ => {}
         }
         trace::note(Ek::OpEnd { op: i as u32, ok: outcome.is_ok() });
+        r.last_op_ok = outcome.is_ok();
         let n = case.sched.get(i).copied().unwrap_or(0);
         r.release(n, obs, true)?;
         if case.reader_steps.contains(&i) && !r.worker_dead {
